@@ -185,7 +185,7 @@ META["C07"] = {
 
 META["C20"] = {
     "level": "model_checking",
-    "rule": "(1) exhaustive pairs: node count 2..33 (quick) / 2..65 (thorough) x every percentage k/m (m<=20), 0.1*j and 0.333.., 0.666.. as float64, all failing nodes' breakers open: size of the filter list vs floor(p*n) in exact rational arithmetic on the float64's exact value; (2) per configuration (percentage 0 / 0.34 / 0.5 / 0.67 / 1, passive or active recovery with a scripted health-check answer) BFS over all histories to the depth bound of request-to-node-j succeeds / fails (3 nodes), clock advance by the retry timeout / the recycle interval, firing the oldest due VIRTUAL timer (time.AfterFunc in recycler / retryer is replaced by a recorded timer), identical rule reload, reload with another percentage, on a chain with the outlier slots; after every request the filter list (subset of rejecting nodes, size bound), the half-open list (= passively probed nodes) and every node's breaker state are compared with a per-node reference, and a fired recycle timer must not delete a node that completed successfully since it was scheduled; distinct = configuration + operation + lists",
+    "rule": "(1) exhaustive pairs: node count 2..33 (quick) / 2..65 (thorough) x every percentage k/m (m<=20), 0.1*j and 0.333.., 0.666.. as float64, all failing nodes' breakers open: size of the filter list vs floor(p*n) in exact rational arithmetic on the float64's exact value; (2) per configuration (percentage 0 / 0.34 / 0.5 / 0.67 / 1, passive or active recovery with a scripted health-check answer) BFS over all histories to the depth bound of request-to-node-j succeeds / fails (3 nodes), clock advance by the retry timeout / the recycle interval, firing the oldest due VIRTUAL timer (time.AfterFunc in recycler / retryer is replaced by a recorded timer), identical rule reload, reload with another percentage (whole-set and per-resource path), on a chain with the outlier slots; after every request the filter list (subset of rejecting nodes, size bound), the half-open list (= passively probed nodes) and every node's breaker state are compared with a per-node reference, and a fired recycle timer must not delete a node that completed successfully since it was scheduled; distinct = configuration + operation + lists; (3) Engine A: the recycle timer of a flagged node against the acknowledgement of a success on that node, all interleavings with <=3 preemptions at lock granularity: a success acknowledged while the node is known is not followed by its removal",
     "assumptions": [A_CLOCK, A_OVERLAY, "the two background consumers (recycler / retryer channels) are synchronised by a marker-task barrier after every request (no deadline)", "which of the rejecting nodes are filtered depends on Go map order; only membership and size are asserted", "active-recovery timers: the reference re-reads the breaker state after a reconnection (weaker oracle for that mode)"],
     "budget_quick": 240,
     "budget_thorough": 900,
@@ -229,7 +229,7 @@ META["C19"] = {
     "technique": "bounded exhaustive enumeration of requests (and request pairs) on the implementation with an observer slot; scan + coverage cross-check of the program quantifier",
 }
 
-ENGINE_OF = {"C19": "matrix", "C18": "seq", "C17": "seq", "C20": "seq", "C07": "seq", "C15": "sched", "C16": "seq", "C14": "seq", "C13": "seq", "C05": "seq", "C11": "seq", "C10": "seq+sched", "C12": "sched", "C03": "seq", "C06": "seq+sched", "C09": "sched", "C08": "seq", "C02": "seq+sched", "C04": "seq+sched", "C01": "seq+sched"}
+ENGINE_OF = {"C19": "matrix", "C18": "seq", "C17": "seq", "C20": "seq+sched", "C07": "seq", "C15": "sched", "C16": "seq", "C14": "seq", "C13": "seq", "C05": "seq", "C11": "seq", "C10": "seq+sched", "C12": "sched", "C03": "seq", "C06": "seq+sched", "C09": "sched", "C08": "seq", "C02": "seq+sched", "C04": "seq+sched", "C01": "seq+sched"}
 
 # properties not claimed, with the reason (kept current)
 NOT_APPLICABLE = {}
